@@ -51,7 +51,8 @@ CHECKS["C02"] = dict(
          "fields, roll-over by the next coarser unit, time_coverage) and TLC checks the round-trip and 'least end >= start' "
          "theorems over a boundary catalogue; every enumerated (template, start, end) is replayed through get_filename, "
          "parse_filename and get_info (also info_via='both') under four concrete spellings. NameMatch.tla decides which "
-         "single-piece corruptions of valid names must be rejected with ValueError.",
+         "single-piece corruptions of valid names must be rejected with ValueError. "
+         "User placeholders are also given through set_placeholders after the object has already parsed a name.",
     ref="DESIGN.md §5 C02",
     note="Trusted: TLC, Calendar/NameProps/NameMatch, the harness' zero padding and template assembly. User regexes are "
          "limited to default/[A-Z]+/value list; regex metacharacters other than '.' and '*' in templates are by design "
@@ -66,7 +67,8 @@ CHECKS["C06"] = dict(
          "ALL permutations; TLC-enumerated (build, query) sequences with the oracle per radius class are replayed on the real "
          "GeoIndex with every permutation forced through numpy.random.shuffle, on three great-circle embeddings (date line, "
          "poles, tilted), both metrics/trees, leaf sizes, seven spellings of r, shuffle off, return_distance=False; random "
-         "sessions on a 24-ring (up to 200 points, real seeded shuffles) are validated by GeoTrace.tla.",
+         "sessions on a 24-ring (up to 200 points, real seeded shuffles) are validated by GeoTrace.tla. "
+         "The radius is written in every supported spelling (19 unit names, bare numbers) and queries are repeated to 2501 / 4099 points.",
     ref="DESIGN.md §5 C06",
     note="Trusted: TLC, GeoIndexProps (~30 lines), the ring embedding (thresholds sit mid-gap, hundreds of km from any "
          "class, so floating point cannot flip membership) and the harness' chord/arc formulas used only to classify "
@@ -111,7 +113,8 @@ CHECKS["C12"] = dict(
          "(liveness under weak fairness) over all fault placements, and every terminal state is replayed on the real "
          "context managers for gz/bz2/zip/xz x 5 contents x 3 namings with the fault injected at that very step (module-level "
          "shutil, tempfile, compressor table and open of typhon.files.utils; exception in the with-body; truncated archive; "
-         "explicit tmpdir / target); stored files must open with the standard library.",
+         "explicit tmpdir / target); stored files must open with the standard library. "
+         "Round trips also for upper- and mixed-case suffixes (pass-through or genuine archive).",
     ref="DESIGN.md §5 C12",
     note="Trusted: TLC, CompressDesign (~110 lines), fault injectors. What a failed compress_as leaves in the TARGET is "
          "deliberately unconstrained (the property only speaks about exceptions inside the block). Zip member naming is "
@@ -127,7 +130,8 @@ CHECKS["C15"] = dict(
          "FileSet objects with the crash raised as a BaseException at exactly that step (k-th write of the backup, before "
          "the rename), six corruption variants, two entry catalogues (microseconds / years 1000 and 9999; non-temporal "
          "datetime.min/max) and a truncation sweep over every byte; find() with the loaded cache is compared with find() "
-         "without.",
+         "without. "
+         "CacheDesign (incl. Reset = reset_cache / time_coverage assignment) refines the history-free CacheInd (PROPERTY RefinesInd), whose MainComplete / LoadOK invariant Apalache proves inductive for any number of saves, crashes and restarts.",
     ref="DESIGN.md §5 C15",
     note="Trusted: TLC, CacheDesign (~100 lines), the crash injectors (module-level open/shutil/atexit of "
          "typhon.files.fileset; the evidence says if a crash point could not be reached). A crash is emulated by an "
@@ -144,7 +148,8 @@ CHECKS["C10"] = dict(
          "icollect through a gated ThreadPoolExecutor installed via typhon.files.fileset.ThreadPoolExecutor, and the recorded "
          "submit/start/finish/consume/raise logs are validated against PoolProps by TLC (PoolTrace). align() is driven with "
          "random gated schedules of both loaders and compared with the match list (pairs, order, each needed secondary read "
-         "once, skip_errors); process pools are run ungated and judged on order and completeness.",
+         "once, skip_errors); process pools are run ungated and judged on order and completeness. "
+         "PoolDesign refines the history-free PoolWindowInd (PROPERTY RefinesInd in the same TLC run), whose window / running / in-order invariant Apalache proves inductive for all N, W <= 12 (extra evidence, with a negative control).",
     ref="DESIGN.md §5 C10",
     note="Trusted: TLC, PoolProps (~45 lines), the gated executor (time-outs only detect a stuck replay: the schedule is "
          "then released and the run is still judged on PoolProps; the evidence counts such runs). Bounds: n <= 4 (quick) / 6 "
@@ -160,7 +165,8 @@ CHECKS["C11"] = dict(
          "uniqueness, projection and NoInvention and simulates histories, recording the state after every step; each history "
          "is replayed on two real filesets in 8 layout/handler configurations (pickle, NetCDF with dtypes/NaN/datetimes/"
          "scale-offset/pseudo group, CSV with read_args, added compression suffix with convert, __setitem__ and write) and "
-         "after EVERY step all files on disk are listed, parsed back through the template and read through the handler.",
+         "after EVERY step all files on disk are listed, parsed back through the template and read through the handler. "
+         "Selections: all, period, tag filter, explicit list, explicit EMPTY list (selects nothing).",
     ref="DESIGN.md §5 C11",
     note="Trusted: TLC, FileOpsProps (~110 lines), the content catalogue and its equality (values, NaN-aware; dtype "
          "widening by the NetCDF reader is not judged). Handlers run in one worker thread (netCDF4/HDF5 is not thread-safe). "
@@ -273,7 +279,8 @@ CHECKS["C20"] = dict(
          "corner, tile edges, the pole row and +-180 degrees (aligned corners at multiples of 1/8 degree, unaligned ones in "
          "mid-cell); SRTM30.elevation / get_tiles are run with synthetic tiles whose pixel encodes global row, column and "
          "tile index and EVERY returned cell is compared; get_native_grids(bounds(t)) = get_grids(t) for all 27 tiles; tile "
-         "cache histories (warm/cold) from TileCache.tla are replayed on the real get_tile with a counting download stub.",
+         "cache histories (warm/cold) from TileCache.tla are replayed on the real get_tile with a counting download stub. "
+         "Unaligned edges are placed mid-cell and a nanodegree from the cell borders.",
     ref="DESIGN.md §5 C20",
     note="Trusted: TLC, SrtmProps (~60 lines), the synthetic pixel formula (also evaluated by TLC for the corner cells). "
          "Aligned corners are restricted to values exactly representable in binary; decimal-aligned corners are undecidable "
@@ -290,7 +297,8 @@ CHECKS["C05"] = dict(
          "bundle None/primary/daily, memory and Collocations-fileset output (read back), one unreadable file with "
          "skip_file_errors, the 'no files match' and 'same span' scenarios; with thread-backed fake processes and a fake "
          "queue with randomised feeder/poll timing many interleavings per scenario are run and the put/get logs plus the "
-         "delivered bag are validated by PipelineTrace.tla.",
+         "delivered bag are validated by PipelineTrace.tla. "
+         "ResultQueueDesign refines the set-based ResultQueueInd (PROPERTY RefinesInd), whose conservation invariant Apalache proves inductive for all K, R up to 4 (quick: 3, 2), any None results and crashers; Collocations.search is exercised through a recording collocator.",
     ref="DESIGN.md §5 C05",
     note="Trusted: TLC, CollocProps/ResultQueueDesign/PipelineTrace, the fake Process/Queue (semantics: a producer exits only "
          "after its buffer is flushed, as a real process joins its feeder thread). Real-process runs are judged on the "
